@@ -2,6 +2,7 @@ import Driver.Map
 import Driver.Sub
 import Driver.Types
 import Driver.Ext
+import Driver.C20
 import MdspanVerif.Model.ValidB
 open Mdspan Drv
 
@@ -13,6 +14,7 @@ def step (line : String) : String :=
   | "ext" :: t :: s :: rest => extLine t s rest
   | "extconv" :: t :: u :: rest => extconvLine t u rest
   | "exteq" :: t :: u :: rest => exteqLine t u rest
+  | "c20" :: kind :: t :: rest => c20Line kind t rest
   | "dot" :: rest =>
     let ss := (parseList ((getKey rest "str").getD "-")).map Int.toNat
     let is := (parseList ((getKey rest "idx").getD "-")).map Int.toNat
